@@ -35,6 +35,10 @@ func findMatches(insts []bytecode.SearchInstruction, all bool, skip int, take in
 
 	for all || matchNumber < skip+take {
 		currentState := CreateState(filename, reader, fileOffset, lineNumber, columnNumber)
+		if len(insts) == 0 {
+			// an empty body matches the empty string; there is no instruction to fetch
+			currentState.SUCCESS()
+		}
 		for currentState.status == INPROCESS {
 			verifTick()
 			inst := insts[currentState.programCounter]
